@@ -55,9 +55,9 @@ def coefficients(grid, sigma, s, mu_r=None, eps_r=None):
     return eta, zeta
 
 
-def true_residual(grid, sigma, sfield, efield, mu_r=None):
+def true_residual(grid, sigma, sfield, efield, mu_r=None, eps_r=None):
     s = sfield.sval
-    eta, zeta = coefficients(grid, sigma, s, mu_r)
+    eta, zeta = coefficients(grid, sigma, s, mu_r, eps_r)
     e = dict(x=efield.fx, y=efield.fy, z=efield.fz)
     Ae = operator_apply(grid.h, e, eta, zeta)
     r = [sfield.fx - Ae['x'], sfield.fy - Ae['y'], sfield.fz - Ae['z']]
@@ -158,13 +158,29 @@ def check(tier='quick', seed=0):
                 if tr >= 1e-14 * info['ref_error'] and (info['exit'] == 0 or not info['exit_message']):
                     return fail(clause='run that does not reach the tolerance is reported as failure', shape=shape, frequency=freq,
                                 cycle=cycle, sslsolver=ssl, exit=info['exit'], message=info['exit_message'], true_rel_residual=tr / info['ref_error'])
+    # ---- magnetic permeability and electric permittivity, frequency and Laplace domain (displacement term comparable to conduction)
+    shape = (8, 8, 8)
+    h = [20 * 1.1 ** np.abs(np.arange(n) - n / 2 + 0.5) for n in shape]
+    grid = emg3d.TensorMesh(h, origin=(-sum(h[0]) / 2, -sum(h[1]) / 2, -sum(h[2]) / 2))
+    sx = rng.uniform(0.5e-3, 2.0e-3, shape)
+    mu_r = rng.uniform(1.0, 1.5, shape)
+    eps_r = rng.uniform(2.0, 12.0, shape)
+    model = emg3d.Model(grid, property_x=sx, mu_r=mu_r, epsilon_r=eps_r, mapping='Conductivity')
+    sigma = dict(x=sx, y=sx, z=sx)
+    for freq in (2.0e6, -1.0e7):
+        cases += 1
+        sfield = emg3d.get_source_field(grid, [3.0, -4.0, 2.0, 25, 10], frequency=freq)
+        ef, info = emg3d.solve(model, sfield, cycle='F', sslsolver=False, semicoarsening=False, linerelaxation=False, tol=1e-6, return_info=True)
+        r = check_result('mu_r and epsilon_r', grid, sigma, sfield, ef, info, 1e-6, mu_r, eps_r)
+        if r:
+            return fail(shape=shape, frequency=freq, **r)
     return dict(reproduced=False, cases=cases)
 
 
-def check_result(what, grid, sigma, sfield, ef, info, tol):
+def check_result(what, grid, sigma, sfield, ef, info, tol, mu_r=None, eps_r=None):
     if info['exit'] != 0:
         return None if info['exit_message'] else dict(clause='failure without explanatory message', case=what)
-    tr = true_residual(grid, sigma, sfield, ef)
+    tr = true_residual(grid, sigma, sfield, ef, mu_r, eps_r)
     ref = np.sqrt(np.sum(np.abs(sfield.field) ** 2))
     if not tr < tol * ref * (1 + 1e-9):
         return dict(clause='success reported but independent residual >= tol * |s|', case=what, true_residual=tr, tol_times_ref=tol * ref,
